@@ -210,11 +210,11 @@ func propTable() map[string]PropSpec {
 	}
 	t["C17"] = PropSpec{
 		ID: "C17", Pkg: discPkg, LoadPkgs: []string{explPkg}, NativeDir: "discovery",
-		Quick:    []HarnessRun{{Entry: "VDisc", Args: []int{1, 1}, Subst: discSubst, Cosim: 12}, {Entry: "VExploreTable", Pkg: explPkg, Args: []int{2}, Cosim: 8}, {Entry: "VDiscRun", Args: []int{0, 2}, Subst: discSubst, Unwind: 40}, {Entry: "VDiscRun", Args: []int{1, 1}, Subst: discSubst, Unwind: 40}},
-		Thorough: []HarnessRun{{Entry: "VDiscRun", Args: []int{0, 3}, Subst: discSubst, Unwind: 40}, {Entry: "VDiscRun", Args: []int{1, 2}, Subst: discSubst, Unwind: 40}, {Entry: "VDisc", Args: []int{1, 1}, Subst: discSubst, Cosim: 16}, {Entry: "VExploreTable", Pkg: explPkg, Args: []int{3}, Cosim: 8}},
+		Quick:    []HarnessRun{{Entry: "VDisc", Args: []int{1, 1}, Subst: discSubst, Cosim: 12}, {Entry: "VExploreTable", Pkg: explPkg, Args: []int{2}, Cosim: 8}, {Entry: "VDiscRun", Args: []int{0, 2}, Subst: discSubst, Unwind: 40}, {Entry: "VDiscRun", Args: []int{1, 1}, Subst: discSubst, Unwind: 40}, {Entry: "VDiscRun", Args: []int{2, 1}, Subst: discSubst, Unwind: 40}},
+		Thorough: []HarnessRun{{Entry: "VDiscRun", Args: []int{0, 4}, Subst: discSubst, Unwind: 40}, {Entry: "VDiscRun", Args: []int{1, 3}, Subst: discSubst, Unwind: 40}, {Entry: "VDiscRun", Args: []int{2, 2}, Subst: discSubst, Unwind: 40}, {Entry: "VDisc", Args: []int{1, 1}, Subst: discSubst, Cosim: 16}, {Entry: "VExploreTable", Pkg: explPkg, Args: []int{3}, Cosim: 8}},
 		Required: []string{"disc.update", "disc.reload", "disc.job.updated", "disc.job.untouched", "disc.reload.kept", "disc.reload.removed", "explore.update", "explore.reload", "explore.survivor", "discrun.end"},
 		Prefixes: []string{"C17."},
-		Bounds:   "sequential histories: configuration with 2 jobs, a first (full or partial) discovery round, then one step - an update mentioning any subset of a known and an unknown job, or a reload that keeps / removes each job and adds one, followed by an update for a removed and the added job; 1 group (thorough 2) of <= 1 target per job and round, each target active or dropped; snapshot isolation of ActiveTargets / DropTargets / ActiveTargetsByHash across the step; explorer table over <= 2 (3) hashes; bounded thread model: the real TargetsDiscovery.Run loop consuming one discovery round for a kept job from its channel, the driver reloading the configuration (removing or keeping the other job) and a reader goroutine taking two snapshots (ActiveTargets, ActiveTargetsByHash), under every schedule with context switches at synchronisation operations and <= 2 preemptions (thorough 3): the kept job is never missing from a snapshot, the latest update wins, the removed job is gone, subscribers are notified once, Run returns on cancel",
+		Bounds:   "sequential histories: configuration with 2 jobs, a first (full or partial) discovery round, then one step - an update mentioning any subset of a known and an unknown job, or a reload that keeps / removes each job and adds one, followed by an update for a removed and the added job; 1 group of <= 1 target per job and round, each target active or dropped; snapshot isolation of ActiveTargets / DropTargets / ActiveTargetsByHash across the step; explorer table over <= 2 (3) hashes; bounded thread model: the real TargetsDiscovery.Run loop consuming one discovery round for a kept job from its channel, the driver reloading the configuration (removing or keeping the other job; or two rounds around the reload, quick with 1 preemption) and a reader goroutine taking two snapshots (ActiveTargets, ActiveTargetsByHash), under every schedule with context switches at synchronisation operations and <= 2 preemptions (thorough up to 4): the kept job is never missing from a snapshot, the latest update wins, the removed job is gone, subscribers are notified once, Run returns on cancel",
 		Assume:   []string{"thread model: goroutines interleave only at mutex acquisitions, channel operations, select and goroutine exit - complete for data-race-free code; the unlocked read of m.config in translateTargets is treated as atomic with the step it belongs to; schedule decisions are forks of the symbolic executor, counterexamples are confirmed by concrete re-execution of the SSA under the recorded schedule", "targetsFromGroup is replaced by a summary returning one entry per discovered address (active unless labelled drop=1); scrape.Target label accessors are summarised accordingly (its own behaviour is C15 / C02 territory); natively the real functions run on groups built to give the same outcome", "sync.Mutex Lock/Unlock are tracked (a lock taken twice, or an unlock without lock, ends the path as an error); logging is a no-op"},
 		Outside:  []string{"the data race itself between the unlocked read of the configuration map in translateTargets and ApplyConfig (the model switches threads at synchronisation operations only)", "more than 3 preemptions, more than one concurrent update and one reload, more than one reader", "more than one step after the first round in the sequential harness; more than 2 jobs"},
 	}
